@@ -146,8 +146,12 @@ def values_leg(c, rng, wd, n):
                         vid, v.value, v.truncated, text, inst['maxStr'])
                     break
                 want = built.names[node]
-                if kind in ('list', 'tuple', 'exc'):
+                if kind in ('list', 'tuple'):
                     want = want[:inst['maxColl']]
+                elif kind == 'exc':
+                    # the arguments are a collection (limited), the attributes are the object's own
+                    na = len([x for x in want if x.isdigit()])
+                    want = want[:na][:inst['maxColl']] + want[na:]
                 got = [ch.name for ch in v.children]
                 if got and got != want[:len(got)] or (len(got) not in (0, len(want))):
                     bad = 'variable %s (%s) children %s, expected %s' % (vid, kind, got, want)
